@@ -91,6 +91,17 @@ def c20_run(ctx, search=False):
     viol, known, disagree, _ = classify(
         ctx, cases, "k-subset enumeration / size_hint / binom exactness (spec predicate on the implementation's output)",
         "SelModel vs util.rs")
+    # decided on the implementation's behaviour alone: the enumerator must not panic for ANY (n, k) (k = 0 and k > n yield nothing), and the
+    # number it reports before each step is exact (both bounds of size_hint)
+    for c in cases:
+        m = c["meta"]
+        w = None
+        if m.get("panicked"):
+            w = "C20: the k-subset enumerator panics for n = %s, k = %s (it must yield %s)" % (m["n"], m["k"], "nothing" if (m["k"] == 0 or m["k"] > m["n"]) else "every selection once")
+        elif m.get("hint_bounds_equal") is False:
+            w = "C20: size_hint reports an upper bound different from the exact number of selections still to come (n = %s, k = %s)" % (m["n"], m["k"])
+        if w and len([v for v in viol if v[0].startswith("C20:")]) < 2:
+            viol.append((w, ctx.replay({"kind": "failing-input", "what": w, "case": m}), False))
     if (disagree or search) and not viol:
         # search for a failing input with the larger bound
         if ctx.tier == "quick":
